@@ -3,13 +3,17 @@
 (* byte strings for the parsers, corrupted nearest-neighbour saves.           *)
 EXTENDS Contract, TLC, Json
 
-CONSTANTS NChunks, StrDepth
+CONSTANTS NChunks, StrDepth, Depth12, Depth8
 VARIABLE v
 
 N == Len(Entries)
 Parsers == {"dms", "dmslatlon", "dmsangle", "dmsazi", "geocoords", "mgrs", "osgb", "geohash", "gars", "georef", "zone", "val", "valint", "fract", "date", "parseline"}
 \* abstract alphabet of bytes: digits, point, signs, DMS symbols, letters with a role, space, exponent, NUL, high bytes
 Alpha == {48, 49, 57, 46, 43, 45, 100, 39, 34, 58, 78, 83, 69, 87, 32, 101, 0, 226, 128, 178, 194, 176, 110, 97, 105, 118, 47, 44}
+
+\* reduced alphabets for longer strings: digits, point, sign, the DMS symbols, one hemisphere letter, space
+Alpha12 == {48, 49, 57, 46, 45, 100, 39, 34, 58, 78, 69, 32}
+Alpha8 == {49, 57, 46, 45, 100, 39, 58, 78}
 
 ValClasses == {"nan", "inf", "neg", "zero", "huge", "maxint", "bigint", "word", "two", "frac", "empty"}
 
@@ -21,6 +25,8 @@ Next ==
   \* short strings over the abstract alphabet, exhaustively up to StrDepth
   \/ v[1] = "chunk" /\ v[2] = 0 /\ \E p \in Parsers : v' = <<"str", p, <<>>>>
   \/ v[1] = "str" /\ Len(v[3]) < StrDepth /\ \E b \in Alpha : v' = <<"str", v[2], Append(v[3], b)>>
+  \/ v[1] = "str" /\ Len(v[3]) < Depth12 /\ (\A k \in 1..Len(v[3]) : v[3][k] \in Alpha12) /\ \E b \in Alpha12 : v' = <<"str", v[2], Append(v[3], b)>>
+  \/ v[1] = "str" /\ Len(v[3]) < Depth8 /\ (\A k \in 1..Len(v[3]) : v[3][k] \in Alpha8) /\ \E b \in Alpha8 : v' = <<"str", v[2], Append(v[3], b)>>
   \* corrupted saves: truncation at every length, byte faults at every offset
   \/ v[1] = "chunk" /\ v[2] = 0 /\ \E m \in {"text", "bin"} : v' = <<"nn", m, "none", 0>>                                    \* the unfaulted saves load
   \/ v[1] = "chunk" /\ \E m \in {"text", "bin"}, f \in {"truncate", "flipbyte", "zero", "ff", "append", "digit", "tok-ts", "tok-ts1", "tok-np", "tok-np1", "tok-m1", "tok-m2", "tok-big"},
